@@ -59,6 +59,8 @@ func sets(legacyVersion uint, legacy *SetCfg, versioned map[int]SetCfg, cfg *plu
 	cfg.ProtocolVersion = legacyVersion
 	if legacy != nil {
 		cfg.Plugins = Set(legacy.Proto, legacy.Tag)
+		// a plugin name only the host knows about (the plugin does not serve it)
+		cfg.Plugins["ghost"] = &VPlugin{Name: "ghost", Tag: legacy.Tag}
 	}
 	if len(versioned) > 0 {
 		cfg.VersionedPlugins = map[int]plugin.PluginSet{}
